@@ -345,6 +345,47 @@ fn unpadded_bases(tier: Tier, seed: u64) -> Vec<Pkt> {
     v
 }
 
+fn transparency_case(l: &mut Local, img: &[u8], n: u8, name: &str, type_name: &str, prefix: &str) {
+    let padded = wire::pad_packet(img, n);
+    l.evals += 1;
+    l.states += 1;
+    l.sample(|| format!("{} + padding {}", hex_short(img), n));
+    l.transitions += 2;
+    let r = guard::catch(|| (observe::parse_and_observe(img), observe::parse_and_observe(&padded)));
+    match r {
+        Err(pi) => l.subject_panic(&format!("{}parse-padded:{}", prefix, name), &pi, || format!("{} + padding {}", hex_short(img), n)),
+        Ok((Err(e), _)) => {
+            // not C13's business (C09/C10 demand acceptance of well-formed packets); counted
+            let _ = e;
+            l.hit("unpadded packet not parsed (other properties' domain)");
+        }
+        Ok((Ok(plain), padded_obs)) => {
+            l.validated += 1;
+            l.nontrivial(fp_bytes(&padded));
+            match padded_obs {
+                Err(e) => l.violation(format!("{}padded-rejected:{}", prefix, type_name), || format!("{} + padding {}", hex_short(img), n), || format!("{:?}", e)),
+                Ok(mut po) => {
+                    if po.pad() != n {
+                        l.violation(format!("{}padding-accessor-wrong:{}", prefix, type_name), || format!("{} + padding {}", hex_short(img), n), || format!("padding() reports {}", po.pad()));
+                    }
+                    po.set_pad(0);
+                    // both observations decode the same content bytes, so exact equality is demanded
+                    if po != plain {
+                        let f = super::common::diff_field(&po, &plain);
+                        l.violation(
+                            format!("{}content-changed-by-padding:{}:{}", prefix, name, f),
+                            || format!("{} + padding {}", hex_short(img), n),
+                            || format!("unpadded: {} padded: {}", plain.short(), po.short()),
+                        );
+                    } else {
+                        l.hit(if prefix.is_empty() { "transparent" } else { "transparent (parser-accepted shape)" });
+                    }
+                }
+            }
+        }
+    }
+}
+
 pub fn c13(ctx: &mut Ctx) {
     ctx.rule = "every unpadded well-formed packet of the base set W and of a stride through every configuration space (encoded by the reference encoder) x every legal padding 4..=252 applied by the reference padder (P bit, enlarged length, zeros, count); the padded packet must be accepted by the same parser, report the padding, and every content accessor (report blocks, SDES chunks/items, BYE sources/reason, APP payload, FCI entries of all five types) must return what it returns for the unpadded packet; non-trivial = the unpadded packet parses, distinct by fingerprint of the padded image".into();
     ctx.bound("paddings", "all 63 values 4..=252");
@@ -355,46 +396,24 @@ pub fn c13(ctx: &mut Ctx) {
     ctx.run_space("padding-transparency", nb * 63, |idx, l| {
         let b = (idx / 63) as usize;
         let n = (4 * (idx % 63 + 1)) as u8;
-        let img = &images[b];
-        let padded = wire::pad_packet(img, n);
-        l.evals += 1;
-        l.states += 1;
-        l.sample(|| format!("{} + padding {}", hex_short(img), n));
-        let name = bases[b].builder_name();
-        l.transitions += 2;
-        let r = guard::catch(|| (observe::parse_and_observe(img), observe::parse_and_observe(&padded)));
-        match r {
-            Err(pi) => l.subject_panic(&format!("parse-padded:{}", name), &pi, || format!("{} + padding {}", hex_short(img), n)),
-            Ok((Err(e), _)) => {
-                // not C13's business (C09/C10 demand acceptance of well-formed packets); counted
-                let _ = e;
-                l.hit("unpadded packet not parsed (other properties' domain)");
-            }
-            Ok((Ok(plain), padded_obs)) => {
-                l.validated += 1;
-                l.nontrivial(fp_bytes(&padded));
-                match padded_obs {
-                    Err(e) => l.violation(format!("padded-rejected:{}", bases[b].type_name()), || format!("{} + padding {}", hex_short(img), n), || format!("{:?}", e)),
-                    Ok(mut po) => {
-                        if po.pad() != n {
-                            l.violation(format!("padding-accessor-wrong:{}", bases[b].type_name()), || format!("{} + padding {}", hex_short(img), n), || format!("padding() reports {}", po.pad()));
-                        }
-                        po.set_pad(0);
-                        // both observations decode the same content bytes, so exact equality is demanded
-                        if po != plain {
-                            let f = super::common::diff_field(&po, &plain);
-                            l.violation(
-                                format!("content-changed-by-padding:{}:{}", bases[b].builder_name(), f),
-                                || format!("{} + padding {}", hex_short(img), n),
-                                || format!("unpadded: {} padded: {}", plain.short(), po.short()),
-                            );
-                        } else {
-                            l.hit("transparent");
-                        }
-                    }
-                }
-            }
-        }
+        transparency_case(l, &images[b], n, &bases[b].builder_name(), bases[b].type_name(), "");
     });
+    // Shapes the parser accepts although RFC 3550 does not call them well-formed (an SDES chunk whose items end
+    // on a 32-bit boundary without a terminator - the repository's own parse_cname_sdes vector is one -, a bare
+    // SSRC, a count field that disagrees with the chunks): the conditional form of the property is checked on
+    // them - IF the unpadded string is accepted THEN every padded version is accepted with the same content.
+    // A strict parser (rejects the unpadded string) and a lenient one both pass; only a parser whose verdict
+    // on the content changes with the padding fails.
+    let a5 = vec![0x00u8, 0x01, 0x02, 0x08, 0xFF];
+    let lenient_pads: [u8; 5] = [4, 8, 12, 24, 252];
+    for sp in [bytes::sdes_bodies_space(1, vec![0x00u8, 0x01, 0x02, 0x03, 0x04, 0x08, 0x09, 0xFF], vec![0, 1, 2]), bytes::sdes_bodies_space(2, a5, vec![1, 2])] {
+        let get = &sp.get;
+        ctx.run_space(&format!("accepted-shapes:{}", sp.name), (sp.len / 2) * 5, |idx, l| {
+            let mut buf = Vec::with_capacity(16);
+            get((idx / 5) * 2, &mut buf); // even indices: P = 0
+            transparency_case(l, &buf, lenient_pads[(idx % 5) as usize], "Sdes(parser-accepted shape)", "Sdes", "accepted-shape:");
+        });
+    }
     ctx.require_hit("transparent");
+    ctx.require_hit("transparent (parser-accepted shape)");
 }
